@@ -10,7 +10,7 @@ Request
  "env":{"recs":{name:[ver,k]},"dirs":{name:str},"paths":{var:[str…]},"vars":{var:str}},
  "req":{"name","ver":VERREQ|null,"keep":bool,"max_depth":int,"inexact":bool,"tags":[str…],"path":[k…]},
  "layout":{"roots":[dir…],"delims":{var:delim},"subst":[[placeholder,dir]…],"flavor":str}}     (optional: answer gets "sh")
-ACT    = {"g":"always"|"exact"|"inexact","a":"prepend","var","vals":[{"own":bool,"val"}…],"append":bool}
+ACT    = {"g":"always"|"exact"|"inexact"|"type:T"|"ntype:T","a":"prepend","var","vals":[{"own":bool,"val"}…],"append":bool}
        | {"g",…,"a":"set","var","own":bool,"val"} | {"g",…,"a":"alias","key","val"}
        | {"g",…,"a":"dep","name","opt":bool,"just":bool,"ver":VERREQ|null,"vexpr":EXPR|null,"tags":[str…],"keep":bool}
 VERREQ = {"v":version} | {"e":EXPR}        EXPR = [[op,version]…]   (alternatives joined by ||)
@@ -46,7 +46,10 @@ def verReqOf (j : Json) : Except String VerReq := do
 def guardOf (s : String) : Except String Guard :=
   match s with
   | "always" => pure .always | "exact" => pure .exact | "inexact" => pure .inexact
-  | _ => throw s!"bad guard {s}"
+  | _ =>
+    if s.startsWith "type:" then pure (.isType (Str.ofString (s.drop 5).toString))
+    else if s.startsWith "ntype:" then pure (.notType (Str.ofString (s.drop 6).toString))
+    else throw s!"bad guard {s}"
 
 def valOf (j : Json) : Except String Val := do
   let s ← jstr j "val"
@@ -164,7 +167,12 @@ def handle : Handler := fun j => do
     | "setup" => pure true
     | "unsetup" => pure false
     | _ => throw s!"unknown op {op}"
-  let db ← dbOf (← j.getObjVal? "db")
+  let db0 ← dbOf (← j.getObjVal? "db")
+  -- `--type t…`: the tables are read under these setup types (absent = none)
+  let types ← match optField j "types" with
+    | some _ => jstrs j "types"
+    | none => pure []
+  let db := db0.withTypes types
   let env ← envOf db (← j.getObjVal? "env")
   let req ← reqOf (← j.getObjVal? "req")
   let fuel ← jnat j "fuel"
